@@ -327,8 +327,6 @@ package jobs
 // scheduled, and only after verify accepted it; pause/resume re-store the definition loaded for that id with the flag
 // changed; deleting removes the record under the same key; a reset rewrites the stored continuation token of that job;
 // the definitions are reloaded at start from the JobConfigIndex collection.
-//@ assumed (*Scheduler).verify
-//@   pure
 //@ assumed (*Scheduler).toTriggeredJobs
 //@   pure
 //@ assumed errgroup.WithContext
